@@ -161,6 +161,8 @@ def wellformed(g):
                     return False
                 if x[0] == 'ref' and x[1] not in rd and not _is_local(r, x[1]):
                     return False
+                if x[0] in ('expect', 'expectnot', 'skip', 'longest') and any(c[0] == 'py' for c in peg.children(x)):
+                    return False    # constructor-only forms cannot take bare inline Python
                 if x[0] == 'call' and x[1] not in rd:
                     return False
     for _, e in g.ignores:
